@@ -36,6 +36,12 @@ open_("C03", "D24", "C03/unsound-note@f.txt:4", ["C03/unsound-blame@f.txt:4"],
       "history: an AI session appends two spaces to lines 3-4 of f.txt (content committed earlier by a person); `git stash push`; a commit to another file; `git stash pop`; commit => line 4, whose content a person wrote, is credited to the session",
       "c03.ai_reindents_human_lines_then_stash_roundtrip", ["ai_ws_touch_strict"])
 fixed("C03", "D3", "^fix: writing an empty pending set", "after a partial commit left AI lines pending, `git checkout -- f` discarded them but the stale INITIAL survived (write_initial_attributions returned early on an empty set) and lines a person typed at the same positions were committed as AI", "c03.path_checkout_then_human_types_same_lines")
+open_("C05", "D4", "C05/unparsable-note", [],
+      "history: a tracked file named `---` gets one AI line and is committed => the note's attestation section contains the path line `---`, which every reader (git-ai's own parser and the spec grammar) takes for the divider: the note is unreadable (metadata is not JSON)",
+      "c05.file_named_like_the_divider", ["name:---"], affects=["C17"])
+open_("C05", "D27", "C05/path-not-in-commit", [],
+      "history: a tracked file named `nl<LF>name.txt` gets one AI line and is committed => the quoted path is written with the raw newline, so the attestation section has two path lines `\"nl` and `name.txt\"`, neither of which exists in the commit",
+      "c05.file_name_with_newline", ["name:nl\nname.txt"], affects=["C17"])
 # ---------------------------------------------------------------- C02
 open_("C02", "D20", "C03/unsound-note@f.txt:12", [],
       "history: feature branch = [person replaces 2 lines of f.txt by 1; AI session S1 modifies line 5 of f.txt]; upstream inserts 2 AI lines after line 1 and then 5 human lines after line 5 of f.txt; `git rebase main` (no conflict) => the rewritten AI commit's note lists line 12 (text written by a person) as S1: the full rebase replay mis-places attributions when upstream changed the same file",
